@@ -86,6 +86,11 @@ Definition html_escape (x : str) : str :=
   replace1 39 (s "&#x27;") (replace1 34 (s "&quot;")
     (replace1 62 (s "&gt;") (replace1 60 (s "&lt;") (replace1 38 (s "&amp;") x)))).
 
+(** ** markupsafe.escape (what Jinja's autoescape applies to an interpolation) *)
+Definition markup_escape (x : str) : str :=
+  replace1 34 (s "&#34;") (replace1 39 (s "&#39;")
+    (replace1 60 (s "&lt;") (replace1 62 (s "&gt;") (replace1 38 (s "&amp;") x)))).
+
 (** ** t(tag, body, **attrs) *)
 Definition attr_name (n : str) : str := replace_dunder (rstrip_by (N.eqb 95) n).
 
@@ -413,6 +418,127 @@ Definition check_render_tree (i : node * list (list hcell) * str) (o : res str) 
 
 Definition check_quoteattr (i : str) (o : str) : bool := str_eqb (quoteattr i) o.
 Definition check_html_escape (i : str) (o : str) : bool := str_eqb (html_escape i) o.
+Definition check_markup_escape (i : str) (o : str) : bool := str_eqb (markup_escape i) o.
 Definition check_t (i : str * option str * list (str * str)) (o : str) : bool :=
   let '(tag, body, attrs) := i in str_eqb (t tag body attrs) o.
 Definition check_render_quantity (i : quantity) (o : res str) : bool := check_str (render_quantity i) o.
+
+(** ** Anchors of a rendered Markdown document (C09)
+
+    [MarkdownRecipe.render]: the k-th independent recipe of the document
+    (k = 1, 2, ...) renders all its blocks with the id prefix ["recipe-"]
+    (k = 1) or ["recipe<k>-"] (k >= 2).  A page is the list of independent
+    recipes, each a list of blocks, each a list of trees. *)
+Definition prefix_num (i : nat) : str := if Nat.leb i 1 then [] else dec_N (N.of_nat i).
+Definition prefix_of (i : nat) : str := s "recipe" ++ prefix_num i ++ s "-".
+
+(** the element an id attribute sits on: the [<table>] of the k-th tree of the
+    recipe, or the [<li>] of output [out] of that tree *)
+Inductive anchor := ATable (tree : nat) | ALi (tree : nat) (out : nat).
+
+Definition anchor_eqb (a b : anchor) : bool :=
+  match a, b with
+  | ATable k, ATable k' => Nat.eqb k k'
+  | ALi k o, ALi k' o' => Nat.eqb k k' && Nat.eqb o o'
+  | _, _ => false
+  end.
+
+Fixpoint li_ids (names all : list svs) (k out : nat) (prefix : str) : res (list (str * anchor)) :=
+  match names with
+  | [] => Ok []
+  | _ :: rest =>
+      match generate_subrecipe_output_id all out prefix, li_ids rest all k (S out) prefix with
+      | Ok i, Ok r => Ok ((i, ALi k out) :: r)
+      | Err e, _ => Err e
+      | _, Err e => Err e
+      end
+  end.
+
+(** ids written for the k-th tree (only a root sub recipe defines targets) *)
+Definition tree_ids (prefix : str) (k : nat) (t : node) : res (list (str * anchor)) :=
+  match t with
+  | SubRecipe _ [nm] _ =>
+      match generate_subrecipe_output_id [nm] 0 prefix with Ok i => Ok [(i, ATable k)] | Err e => Err e end
+  | SubRecipe _ names _ => li_ids names names k 0 prefix
+  | _ => Ok []
+  end.
+
+(** the references DRAWN in a tree (not those inside the sub recipe a reference embeds) *)
+Fixpoint refs_in (t : node) : list (node * nat) :=
+  match t with
+  | Ingredient _ _ => []
+  | Step _ ins => (fix go (l : list node) : list (node * nat) :=
+                     match l with [] => [] | x :: r => refs_in x ++ go r end) ins
+  | Reference sub idx _ => [(sub, idx)]
+  | SubRecipe b _ _ => refs_in b
+  end.
+
+Definition ref_target (prefix : str) (r : node * nat) : res str :=
+  match fst r with
+  | SubRecipe _ names _ => generate_subrecipe_output_id names (snd r) prefix
+  | _ => Err ValueError
+  end.
+
+Fixpoint map_res {A B} (f : A -> res B) (l : list A) : res (list B) :=
+  match l with
+  | [] => Ok []
+  | x :: r => match f x, map_res f r with
+              | Ok y, Ok ys => Ok (y :: ys)
+              | Err e, _ => Err e
+              | _, Err e => Err e
+              end
+  end.
+
+Fixpoint ids_from (prefix : str) (k : nat) (trees : list node) : res (list (str * anchor)) :=
+  match trees with
+  | [] => Ok []
+  | t :: rest =>
+      match tree_ids prefix k t, ids_from prefix (S k) rest with
+      | Ok a, Ok b => Ok (a ++ b)
+      | Err e, _ => Err e
+      | _, Err e => Err e
+      end
+  end.
+
+(** ids and link targets of one independent recipe (its blocks concatenated) *)
+Definition recipe_ids (prefix : str) (trees : list node) : res (list (str * anchor)) := ids_from prefix 0 trees.
+Definition recipe_targets (prefix : str) (trees : list node) : res (list str) :=
+  map_res (ref_target prefix) (flat_map refs_in trees).
+
+Definition page := list (list (list node)).
+
+Fixpoint page_ids_from (i : nat) (p : page) : res (list (str * (nat * anchor))) :=
+  match p with
+  | [] => Ok []
+  | blocks :: rest =>
+      match recipe_ids (prefix_of i) (List.concat blocks), page_ids_from (S i) rest with
+      | Ok a, Ok b => Ok (map (fun x => (fst x, (i, snd x))) a ++ b)
+      | Err e, _ => Err e
+      | _, Err e => Err e
+      end
+  end.
+Definition page_ids (p : page) : res (list (str * (nat * anchor))) := page_ids_from 1 p.
+
+Fixpoint page_hrefs_from (i : nat) (p : page) : res (list str) :=
+  match p with
+  | [] => Ok []
+  | blocks :: rest =>
+      match recipe_targets (prefix_of i) (List.concat blocks), page_hrefs_from (S i) rest with
+      | Ok a, Ok b => Ok (map (fun x => 35 :: x) a ++ b)
+      | Err e, _ => Err e
+      | _, Err e => Err e
+      end
+  end.
+Definition page_hrefs (p : page) : res (list str) := page_hrefs_from 1 p.
+
+(** correspondence: ids with the kind of element ("table" / "li") and hrefs, in document order *)
+Definition anchor_tag (a : anchor) : str := match a with ATable _ => s "table" | ALi _ _ => s "li" end.
+
+Definition check_page (p : page) (o : res (list (str * str) * list str)) : bool :=
+  match page_ids p, page_hrefs p with
+  | Ok ids, Ok hrefs =>
+      res_same (pair_eqb (list_eqb (pair_eqb str_eqb str_eqb)) (list_eqb str_eqb))
+               (Ok (map (fun x => (fst x, anchor_tag (snd (snd x)))) ids, hrefs)) o
+  | Err e, _ => res_same (fun _ _ => false) (@Err (list (str * str) * list str) e) o
+  | _, Err e => res_same (fun _ _ => false) (@Err (list (str * str) * list str) e) o
+  end.
